@@ -65,10 +65,10 @@ var (
 func init() {
 	// init read-only commands map
 	for _, command := range []string{
-		"dump", "pttl", "sort", "ttl", "type", "exists",
+		"dump", "pttl", "ttl", "type", "exists",
 		// string & list & geo
 		"bitcount", "bitpos", "get", "getbit", "getrange", "strlen",
-		"lindex", "llen", "lrange", "geoadd",
+		"lindex", "llen", "lrange",
 		// hash
 		"hexists", "hget", "hgetall", "hkeys", "hlen", "hmget",
 		"hstrlen", "hvals", "hscan",
